@@ -1971,6 +1971,14 @@ func (t *tScreen) inputLoop(stopQ chan struct{}) {
 		}
 		chunk := make([]byte, 128)
 		n, e := t.tty.Read(chunk)
+		if n > 0 && e != nil {
+			// a Read may return data along with an error; the data still counts
+			select {
+			case t.keychan <- chunk[:n]:
+			case <-stopQ:
+				return
+			}
+		}
 		switch e {
 		case nil:
 		default:
